@@ -4,6 +4,7 @@ package main
 import (
 	_ "go.nanomsg.org/mangos/v3/vh/c03"
 	_ "go.nanomsg.org/mangos/v3/vh/c04"
+	_ "go.nanomsg.org/mangos/v3/vh/c05"
 	"go.nanomsg.org/mangos/v3/vz/vexplore"
 )
 
